@@ -338,7 +338,10 @@ fn ty_facts<'tcx>(tcx: TyCtxt<'tcx>, out: &mut Vec<String>) {
                     let fs: Vec<String> = v.fields.iter().map(|f| format!("{{\"name\":{},\"ty\":{}}}", js(f.name.as_str()), js(&format!("{}", tcx.type_of(f.did).instantiate_identity().skip_norm_wip())))).collect();
                     format!("{{\"name\":{},\"fields\":[{}]}}", js(v.name.as_str()), fs.join(","))
                 }).collect();
-                out.push(format!("{{\"fact\":\"adt\",\"path\":{},\"variants\":[{}]}}", js(&tcx.def_path_str(did)), vs.join(",")));
+                let aty: Ty<'tcx> = tcx.type_of(did).instantiate_identity().skip_norm_wip();
+                let nd = if aty.has_param() { "null".to_string() } else { aty.needs_drop(tcx, TypingEnv::fully_monomorphized()).to_string() };
+                let kind = if adt.is_enum() { "enum" } else if adt.is_union() { "union" } else { "struct" };
+                out.push(format!("{{\"fact\":\"adt\",\"path\":{},\"kind\":\"{}\",\"needs_drop\":{},\"variants\":[{}]}}", js(&tcx.def_path_str(did)), kind, nd, vs.join(",")));
             }
             DefKind::Static { .. } => {
                 let ty: Ty<'tcx> = tcx.type_of(did).instantiate_identity().skip_norm_wip();
